@@ -20,7 +20,13 @@ RULE = ("kinds: sweep (2-4 samples, 2-5 treatments, D in 1..3, <= 12 observed ro
         "reset_model() between two sweeps, as every chain of batchie.sampling.sample starts) with "
         "np.random.normal / np.random.gamma / sample_mvn_from_precision replaced by recording stubs that return prescribed "
         "values, a few MVN draws raising); selfcombo (same, plus a row with the same treatment in both columns); "
-        "mvn (sample_mvn_from_precision with a stubbed generator against Model/Mvn.v).  Per step function the extracted model is "
+        "mvn (sample_mvn_from_precision with a stubbed generator against Model/Mvn.v); "
+        "realdraws (predicate only, NOTHING stubbed: 3-8 samples, 4-14 treatments, D in {2, 5, 10}, 50-150 observations of which one case in "
+        "three nearly noiseless, a history add_observations / 40 sweeps / add_observations / 15 sweeps / add_observations + reset_model / 15 "
+        "sweeps (thorough: 50-200 + 30 + 30) with the real np.random.normal / gamma, the real Cholesky of sample_mvn_from_precision on the "
+        "float32 Q the sampler builds - its argument-less default_rng() replaced by a seeded Generator -: no MVN draw raises and no block is "
+        "skipped, every embedding row / intercept is redrawn in every sweep, after EVERY step function the cache equals the recomputation on "
+        "the CURRENT data, alpha, bounds, order, export every fifth sweep).  Per step function the extracted model is "
         "restarted from the implementation's pre-block state.  Non-trivial: at least one observation.")
 THEOREMS = {
     "C08_order": "the model's sweep order equals the call order read from the source of mcmc_step (Generated/ConstsMcmc.v), is duplicate-free, contains every step function, starts with the reconstruction; mcmc_step is the composition in that order",
@@ -112,6 +118,12 @@ THEOREMS = {
     "C08_model_is_source_sdc_reset_model": "SparseDrugCombo.reset_model = the translated legacy reset_model on the wrapped object, nothing else",
     "C08_model_is_source_sdc_set_rng": "set_rng stores the generator in _rng, the rng property reads it (the sampler never draws from it: known finding of C18)",
     "C08_model_is_source_sdc_step": "SparseDrugCombo.step = exactly one mcmc_step of the wrapped object, the wrapper then holding the new state",
+    "C08_reconstruct_establishes_invariant": "a state ready for a sweep (the shapes __init__ allocates, cache no longer than the data - stale after __init__, _update, reset_model): after _reconstruct_Mu the cache is exact and the arrays have their sizes (Inv), from the shapes alone",
+    "C08_reachable_cache_invariant": "from every REACHABLE state (after __init__, any _update calls, whole sweeps, reset_model calls in any order), valid ids, no self-combination row: after _reconstruct_Mu followed by ANY sequence of step functions, for all answers of all draws, the cache is exact - so C08_cache_invariant and the Gaussian-block theorems are not vacuous on the first sweep of a chain, after new data or after a reset",
+    "C08_reachable_cache_invariant_prefix": "... in particular after every non-empty prefix of the documented sweep, also with j further whole sweeps before or after",
+    "C08_reachable_sweep_invariant": "... and after the whole mcmc_step",
+    "C08_reachable_gauss_draws_are_conditionals": "the bridging corollary: from a reachable state, after _reconstruct_Mu and any further step functions, whichever Gaussian step function (W0, V0, W, V2, V1) runs next, EVERY per-index draw inside it is computed in a state where the draw arguments are those of the full conditional (the conclusions of C08_gauss_block_W0 ... _V1 with no cache or length hypothesis left)",
+    "C08_gauss_step_is_its_blocks": "a Gaussian step function is the sequence of its per-index blocks (the list the corollary quantifies over)",
     "C08_model_is_source_sdc_step_sweep": "... hence, read on the wrapped object's state, the model's sweep from every reachable state (well-shaped answers)",
 }
 ASSUMPTIONS = [
@@ -257,6 +269,20 @@ def gen(rng, tier):
         n_s, n_t, D = rng.randint(2, 3), rng.randint(2, 4), rng.choice([1, 2])
         yield dict(kind="selfcombo", D=D, n_s=n_s, n_t=n_t, rows=_gen_rows(rng, n_s, n_t, rng.randint(2, 8), True),
                    steps=1, dseed=rng.randrange(1 << 30), fail=False, wide=False)
+    # real sweeps: nothing stubbed (real np.random.normal / gamma, the real Cholesky in sample_mvn_from_precision on the float32 Q the
+    # sampler builds), a history of add_observations / sweeps / reset_model; predicate only
+    for i in range(9 if tier == "quick" else 40):
+        n_s, n_t = rng.randint(3, 8), rng.randint(4, 14)
+        D = [2, 5, 10][i % 3]
+        n = rng.randint(50, 150)
+        rows = _gen_rows(rng, n_s, n_t, n, False)
+        if i % 3 == 1:      # nearly noiseless data: large observation precision, Q dominated by X^T X
+            rows = [[r[0], r[1], r[2], [0.25, 0.5, 0.75][(r[0] + r[1] + 2 * r[2]) % 3]] for r in rows]
+        sweeps = (40, 15, 15) if tier == "quick" else (rng.choice([50, 100, 200]), 30, 30)
+        c1, c2 = sorted(rng.sample(range(1, n), 2))
+        yield dict(kind="realdraws", D=D, n_s=n_s, n_t=n_t, rows=rows, seed=rng.randrange(1 << 30),
+                   history=[["add", 0, c1], ["sweeps", sweeps[0]], ["add", c1, c2], ["sweeps", sweeps[1]], ["add", c2, n], ["reset"],
+                            ["sweeps", sweeps[2]]])
     for i in range(n_mvn):
         D = rng.choice([1, 2, 2, 3, 3, 4])
         A = [[_dy(rng, -2, 2, 4) for _ in range(D)] for _ in range(D + 1)]
@@ -934,14 +960,170 @@ def run_mvn(desc):
     return dict(wire=[2, D, qm(L), qv(z), qv(b)], impl=[float(v) for v in x], pred=pred, features=["mvn", "D=%d" % D], cmp=cmpf)
 
 
+# --------------------------------------------------------------------------- real sweeps (no draw is stubbed)
+
+RTOL = 2e-6     # float32 cache, incrementally updated by up to 13 step functions per sweep (observed: < 4e-8 of the scale, < 4e-6 absolute)
+
+
+def _rtol(mu, sc):
+    return max(1e-4 * (1.0 + (float(np.abs(mu).max()) if np.size(mu) else 0.0)), RTOL * sc)
+
+
+def run_realdraws(desc):
+    """a history of add_observations / real sweeps / reset_model on one model object, with the real draw primitives (np.random seeded,
+    the argument-less default_rng() of sample_mvn_from_precision replaced by a seeded Generator: recording, not stubbing) and the real
+    Cholesky factorisation on the Q the sampler builds.  Predicate (property clauses that need no model): every MVN draw of
+    _W_step / _V2_step / _V1_step returns (no block is skipped, no 'Numeric instability' warning) and every embedding row, intercept
+    and precision is redrawn in every sweep; after EVERY step function the cache equals the recomputation from the current parameters
+    on the CURRENT data; alpha = mean of the transformed observations; precisions inside their bounds after their step; step functions
+    in the documented order; the exported sample reproduces the fitted values and the precision after every sweep."""
+    from batchie.models import sparse_combo
+    rows = desc["rows"]
+    from batchie.data import ExperimentSpace
+    _m, _train_all, scr_all = build_model(desc)                  # one screen holding every row, to take the training subsets from
+    # a fresh model on the same experiment space: the observations arrive through the history
+    model = sparse_combo.SparseDrugCombo(n_embedding_dimensions=desc["D"], experiment_space=ExperimentSpace.from_screen(scr_all))
+    w = model.wrapped_model
+    fails, counts = [], dict(mvn_calls=0, mvn_raised=0, warnings=0, sweeps=0, step_calls=0)
+    calls = []
+
+    def fail(tag, msg):
+        if len(fails) < 6:
+            fails.append((tag, msg))
+
+    def wrap(name):
+        orig = getattr(w, name)
+
+        def f(*a, **k):
+            orig(*a, **k)
+            calls.append((name, snap(w)))
+        return f
+    for nm in STEP_NAMES:
+        setattr(w, nm, wrap(nm))
+    real_mvn = sparse_combo.sample_mvn_from_precision
+    real_default_rng = np.random.default_rng
+    gens = np.random.SeedSequence(desc["seed"])
+
+    def mvn(*a, **k):
+        counts["mvn_calls"] += 1
+        try:
+            return real_mvn(*a, **k)
+        except BaseException as e:      # noqa: BLE001 - re-raised: only counted
+            counts["mvn_raised"] += 1
+            Q = np.asarray(a[0] if a else k.get("Q"))
+            fail("skipped", "sample_mvn_from_precision raised %s: %s on the %s %dx%d precision matrix the sampler built (min eigenvalue of its "
+                 "symmetric part %.3g): the block is skipped" % (type(e).__name__, str(e)[:80], Q.dtype, Q.shape[0], Q.shape[-1],
+                                                                 float(np.linalg.eigvalsh((np.float64(Q) + np.float64(Q).T) / 2).min())))
+            raise
+
+    def default_rng(*a, **k):
+        if a or k:
+            return real_default_rng(*a, **k)
+        return real_default_rng(gens.spawn(1)[0])
+    def play():
+        n_now = 0
+        exports_checked = 0
+        for h in desc["history"]:
+            if h[0] == "add":
+                sel = np.zeros(scr_all.size, dtype=bool)
+                sel[h[1]:h[2]] = True
+                model.add_observations(scr_all.subset(sel))
+                n_now = h[2]
+            elif h[0] == "reset":
+                model.reset_model()
+            else:
+                train = scr_all.subset(np.arange(scr_all.size) < n_now)
+                for _ in range(h[1]):
+                    del calls[:]
+                    before = snap(w)
+                    model.step()
+                    counts["sweeps"] += 1
+                    counts["step_calls"] += len(calls)
+                    dat = impl_data(w)
+                    if len(dat[0]) != n_now:
+                        fail("data", "the sampler holds %d observations after %d were added" % (len(dat[0]), n_now))
+                        break
+                    names = [c[0] for c in calls]
+                    if names != STEP_NAMES:
+                        fail("order", "sweep %d visited %r, documented order is %r" % (counts["sweeps"], names, STEP_NAMES))
+                    ck = Checker(w, desc)
+                    for name, S in calls:
+                        mu = np_mean(with_aux(S), dat)
+                        sc = mu_scale(S, w.D)
+                        if S["Mu"].shape != mu.shape or not bool(np.all(np.abs(S["Mu"] - mu) <= _rtol(mu, sc))):
+                            fail("cache", "sweep %d: fitted-value cache differs from recomputation after %s: max |Mu - recomputed| = %.4g "
+                                 "(tolerance %.4g)" % (counts["sweeps"], name, float(np.abs(S["Mu"] - mu).max()) if S["Mu"].shape == mu.shape
+                                                       else float("nan"), _rtol(mu, sc)))
+                            break
+                        if name == "_alpha_step" and abs(float(S["alpha"]) - float(np.mean(dat[0]))) > 1e-5 * max(1.0, float(np.abs(dat[0]).max())):
+                            fail("alpha", "alpha = %r after _alpha_step, mean of transformed observations = %r" % (float(S["alpha"]), float(np.mean(dat[0]))))
+                        if name.startswith("_prec_"):
+                            ck.bounds(name, S)
+                    for t, msg in ck.fails:
+                        fail(t, "sweep %d: %s" % (counts["sweeps"], msg))
+                    after = calls[-1][1] if calls else snap(w)
+                    for key in ("W", "V2", "V1"):
+                        same = [i for i in range(before[key].shape[0]) if before[key].shape[1] and np.array_equal(before[key][i], after[key][i])]
+                        if same:
+                            fail("skipped", "sweep %d: %s[%d] was not redrawn" % (counts["sweeps"], key, same[0]))
+                    for key in ("W0", "V0", "tau0", "prec", "gam", "phi0", "phi1", "phi2", "eta0", "eta1", "eta2"):
+                        same = np.flatnonzero(np.asarray(before[key] == after[key]).ravel())
+                        clipped = np.flatnonzero(np.asarray((after[key] >= 1e6 * (1 - 1e-6))).ravel()) if key not in ("W0", "V0", "gam") else []
+                        same = [int(i) for i in same if i not in set(int(x) for x in clipped)]
+                        if same and key not in ("tau0", "prec", "phi0", "phi1", "phi2", "eta0", "eta1", "eta2"):
+                            fail("skipped", "sweep %d: %s[%d] was not redrawn" % (counts["sweeps"], key, same[0]))
+                    if counts["sweeps"] % 5 == 0 or counts["sweeps"] <= 2:
+                        th = model.get_model_state()
+                        pr = np.array(th.predict_conditional_mean(train), dtype=np.float64)
+                        exports_checked += 1
+                        if float(th.precision) != float(w.prec):
+                            fail("export", "exported precision %r, sampler precision %r" % (float(th.precision), float(w.prec)))
+                        if pr.shape != after["Mu"].shape or not bool(np.all(np.abs(pr - after["Mu"]) <= _rtol(pr, mu_scale(after, w.D)))):
+                            fail("export", "sweep %d: exported sample does not reproduce the fitted values on the training rows: max difference %.4g"
+                                 % (counts["sweeps"], float(np.abs(pr - after["Mu"]).max()) if pr.shape == after["Mu"].shape else float("nan")))
+                    if fails:
+                        break
+            if fails:
+                break
+        return exports_checked
+
+    exports_checked = 0
+    state = np.random.get_state()
+    try:
+        np.random.seed(desc["seed"] % (1 << 32))
+        with warnings.catch_warnings(record=True) as caught, mock.patch.object(sparse_combo, "sample_mvn_from_precision", mvn), \
+                mock.patch("numpy.random.default_rng", default_rng):
+            warnings.simplefilter("always")
+            try:
+                exports_checked = play()
+            except Exception as e:      # noqa: BLE001 - the implementation raised on a valid history
+                fail("raised", "after %d sweeps the sampler raised %s: %s" % (counts["sweeps"], type(e).__name__, str(e)[:200]))
+            counts["warnings"] = sum(1 for c in caught if "Numeric instability" in str(c.message))
+    finally:
+        np.random.set_state(state)
+    if counts["warnings"] and not any(t == "skipped" for t, _ in fails):
+        fail("skipped", "%d 'Numeric instability' warning(s): a Gaussian block was skipped" % counts["warnings"])
+    pred = None
+    if fails:
+        pred = "; ".join(m for _, m in fails[:3])
+    feats = ["realdraws", "D=%d" % desc["D"], "n=%d+" % (50 * (len(rows) // 50)), "grows-between-sweeps", "reset-between-sweeps",
+             "sweeps>=%d" % (10 * (counts["sweeps"] // 10))]
+    impl = dict(n_obs=len(rows), counts=counts, exports_checked=exports_checked, fail_tags=sorted({t for t, _ in fails}))
+    return dict(wire=None, impl=impl, pred=pred, features=feats)
+
+
 def run(desc):
     if desc["kind"] == "mvn":
         return run_mvn(desc)
+    if desc["kind"] == "realdraws":
+        return run_realdraws(desc)
     return run_sweep(desc)
 
 
 def signature(desc, res):
     tags = (res.get("impl") or {}).get("fail_tags") if isinstance(res.get("impl"), dict) else None
+    if desc.get("kind") == "realdraws":
+        return "realdraws:" + "+".join(tags or [])
     if desc.get("kind") in ("sweep", "selfcombo"):
         selfc = any(r[1] >= 0 and r[1] == r[2] for r in desc["rows"])
         if selfc and tags and set(tags) <= {"cache", "gauss", "export", "gamma"}:
